@@ -333,7 +333,13 @@ def jobs(tier):
                     J.append(("job_format", dict(mode=mode, rep=rep, fmt=fmt, ranges=dict(rg, y0=(0, 8), tzh=(-14, 14), tzm=(0, 0)))))
                     J.append(("job_format", dict(mode=mode, rep=rep, fmt=fmt, ranges=dict(rg, y0=(0, 8), tzh=(0, 0), h=(22, 24)))))
                 else:
-                    J.append(("job_format", dict(mode=mode, rep=rep, fmt=fmt, ranges=dict(rg, y0=(0, 8)))))
+                    J.append(("job_format", dict(mode=mode, rep=rep, fmt=fmt, ranges=dict(rg))))
+                # the largest year the format can spell (9999 / +999999), away from the year end so that no zone
+                # conversion leaves the range
+                nd = 6 if "X" in fmt else 4
+                top = {"y%d" % k: (9, 9) for k in range(nd)}
+                mid = {"cal": {"M": (6, 6), "D": (14, 15)}, "ord": {"DOY": (180, 181)}, "week": {"W": (26, 26)}}[rep]
+                J.append(("job_format", dict(mode=mode, rep=rep, fmt=fmt, ranges=dict(top, tzh=(-14, 14), **mid))))
                 if th:
                     J.append(("job_format", dict(mode=mode, rep={"cal": "ord", "ord": "week", "week": "cal"}[rep], fmt=fmt,
                                                  ranges={"DOY": (1, 3), "W": (1, 1), "M": (1, 1)})))
